@@ -7,3 +7,4 @@
 ; ghost-async cancelled (Array Iface Bool)
 ; reader position when the decoder was started (FullyScannedBytes is relative to it)
 (declare-const rstart Int)
+; ghost buflen (Array Int Int)
